@@ -59,6 +59,8 @@ lzma2_decode(void *coder_ptr, lzma_dict *restrict dict,
 {
 	lzma_lzma2_coder *restrict coder = coder_ptr;
 
+	VERIF_VISIT(VERIF_D_LZMA2_SEQ, coder->sequence);
+
 	// With SEQ_LZMA it is possible that no new input is needed to do
 	// some progress. The rest of the sequences assume that there is
 	// at least one byte of input.
